@@ -155,6 +155,40 @@ def gen_factory(tier):
                         yield Case("f%d" % n, ops, {"kind": "hist", "group": gname, "probe": probe, "hist": list(hist), "expect": alphabet[probe],
                                                     "nh": 1 if hist else 0, "leak": failing})
                         n += 1
+        # the call is the operand of a program-level return statement (the return condition of the program must not reach the callee)
+        for gname, members in GROUPS.items():
+            alphabet = {}
+            for mname in members:
+                alphabet.update(CALLS[mname])
+            for probe, exp in alphabet.items():
+                if "err=" in exp:
+                    continue
+                for wrap in ("return %s;", "print 1; return %s;", "for qq in 1 to 1 loop return %s; end loop;"):
+                    ops = [op_ctx(0), op_run(GLOBALS), op_run(defs), op_run(wrap % probe), op_out(0),
+                           op_ctx(1), op_run(GLOBALS, slot=1), op_run(defs, slot=1), op_run("r = %s;" % probe, slot=1), op_out(1), op_dump(1, "R")]
+                    yield Case("t%d" % n, ops, {"kind": "retcall", "group": gname, "probe": probe, "wrap": wrap})
+                    n += 1
+        # a function is defined again (as a text of its own) after the earlier definition was called: calls of the new definition
+        # behave as in a context that only ever saw the new one (run-time contexts of the old one must not be reused)
+        versions = {
+            "small": "function fv(n) return integer is begin return n + 1; end;",
+            "big": "function fv(n) return integer is begin a = n * 2; b = a + 1; c = b * 3; d = c + a + b; e2 = tab(3, d); s2 = str(d); return d + e2.count() + strlen(s2); end;",
+            "rec": "function fv(n) return integer is begin if n <= 0 then return 0; end if; k = n; return k + fv(n - 1); end;",
+            "str": 'function fv(n) return string is begin w = "v"; w.concat(str(n)); return w; end;',
+            "loop": "function fv(n) return integer is begin acc = 0; for i in 1 to n loop acc = acc + i; if i == 2 then return acc * 100; end if; end loop; return acc; end;",
+            "fail": "function fv(n) return integer is begin if n > 1 then raise ev; end if; x1 = n; return x1; end;",
+        }
+        for v1n, v1 in versions.items():
+            for v2n, v2 in versions.items():
+                for hist in ([], ["fv(1)"], ["fv(1)", "fv(3)"], ["fv(3)", "fv(1)", "fv(2)"]):
+                    for probe in ("fv(1)", "fv(3)"):
+                        ops = [op_ctx(0), op_run(GLOBALS), op_run(v1)]
+                        for c in hist:
+                            ops.append(op_run(block(c)))
+                        ops += [op_out(0), op_run(v2), op_run(block(probe)), op_out(0), op_dump(0, GLOBALS_DUMP),
+                                op_ctx(1), op_run(GLOBALS, slot=1), op_run(v2, slot=1), op_run(block(probe), slot=1), op_out(1), "leakcheck"]
+                        yield Case("v%d" % n, ops, {"kind": "redef", "v1": v1n, "v2": v2n, "hist": hist, "probe": probe, "nh": len(hist)})
+                        n += 1
         # caller isolation at compile time
         for k, (d, rejected) in enumerate(ISOLATION):
             ops = [op_ctx(0), op_run(GLOBALS), op_run(d), op_run("r = g%d(%s); print r;" % (k + 1, "1" if "(a)" in d else "")), op_out(0), op_dump(0, GLOBALS_DUMP)]
@@ -214,6 +248,26 @@ def check(case, res):
             if dv.get(name) != want:
                 vs.append(Violation("caller-modified:%s" % m["group"], "caller variable %s is %r after the calls, expected %r" % (name, dv.get(name), want), case))
         return vs, True
+    if m["kind"] == "retcall":
+        run, out = st[3], text(st[4])
+        ref_run, ref_out, ref_dump = st[8], text(st[9]), st[10].get("vars", {}).get("R", "")
+        want = ref_dump.partition("=")[2]
+        if m["wrap"].startswith("print"):
+            ref_out = "1\n" + ref_out
+        if ref_run.get("r") == "ok" and (run.get("r") != "ok" or run.get("ret") != want or out != ref_out):
+            vs.append(Violation("return-of-call:%s" % m["group"], "%s gives %s (returned %r, printed %r); the call assigned to a variable gives %r and prints %r" % (
+                m["wrap"] % m["probe"], run.get("r"), run.get("ret"), out, want, ref_out), case))
+        return vs, True
+    if m["kind"] == "redef":
+        k = 3 + m["nh"] + 1
+        d2, probe_run, probe_out = st[k], st[k + 1], text(st[k + 2])
+        fresh_run, fresh_out = st[k + 7], text(st[k + 8])
+        if d2.get("r") != "ok":
+            vs.append(Violation("redefinition:rejected", "defining %s after %s (called %s) was rejected: %s" % (m["v2"], m["v1"], m["hist"], d2), case))
+        elif probe_run.get("r") != fresh_run.get("r") or probe_out != fresh_out:
+            vs.append(Violation("redefinition:%s->%s" % (m["v1"], m["v2"]), "%s with definition %s, after definition %s had been called %s, gives %s %r; in a context that only saw %s: %s %r" % (
+                m["probe"], m["v2"], m["v1"], m["hist"], probe_run.get("r"), probe_out, m["v2"], fresh_run.get("r"), fresh_out), case))
+        return vs, True
     if m["kind"] == "iso":
         d, run, out, dump = st[2], st[3], text(st[4]), st[5]
         if m["rejected"]:
@@ -245,6 +299,6 @@ def run(tier):
     res = explore(PROP + "-" + tier, gen_factory(tier), check, chunk=100, deadline=t0 + (2400 if tier == "thorough" else 420))
     rule = ("for each of %d function groups and each probe call, all histories of <= %d earlier calls over the group's call alphabet (including calls "
             "that fail inside and calls whose argument evaluation fails); oracle: probe result = same call in a fresh context = model value; caller "
-            "variables unchanged; caller names rejected in bodies; recursion depths 250..261 and beyond, reached directly and below 1..254 levels of another function, after earlier deep calls at other levels; calls nested in their own argument lists; LeakSanitizer after "
+            "variables unchanged; caller names rejected in bodies; recursion depths 250..261 and beyond, reached directly and below 1..254 levels of another function, after earlier deep calls at other levels; calls nested in their own argument lists; a function defined again after its earlier definition was called (6 x 6 bodies x 4 call histories); LeakSanitizer after "
             "histories with failing calls. Non-trivial: every case executes at least one call" % (len(GROUPS), 5 if tier == "thorough" else 3))
     return finish(PROP, tier, res, check, rule, t0, assumptions=["hand-written expected values per call", "LeakSanitizer (clang 14)"])
